@@ -7,7 +7,8 @@ Jacobian under GradientConfig(method="checkpointed") on every cell outside the a
 obtained from `jax.vjp` evaluated on EVERY cotangent basis vector of EVERY detector output (real and imaginary parts;
 `jax.vmap` over the identity), so equality decides "any scalar function of the detector outputs" by the chain rule.
 The checkpointed Jacobian is cross-checked against central finite differences of the plain forward run on a few cells
-(source cell, detector cell, a cell next to an absorbing layer) to exclude both methods being wrong together.
+(the cells with the largest reference gradient, one of them next to an absorbing layer; cells inside plane-source boxes are
+skipped because fdtdx stop_gradient's the TFSF injection term by design) to exclude both methods being wrong together.
 Conductive scenes are only compared for r = T-1 (a full-field checkpoint at every step), as the statement says.
 """
 
@@ -29,6 +30,7 @@ ASSUMPTIONS = [
     "float64 evaluation is representative of the float32 default",
     "scenes come from a finite menu; material values from the all-distinct / VERIF_SEED patterns",
     "gradients are taken w.r.t. arrays.inv_permittivities / inv_permeabilities with the placed objects held fixed (same function for both methods)",
+    "the finite-difference cross-check skips cells inside plane-source boxes: fdtdx stop_gradient's the TFSF injection term by design, so autodiff (either method) deliberately differs from finite differences there",
 ]
 TOL = 1e-9
 TOL_FD = 2e-6
@@ -382,6 +384,16 @@ def _fd_cells(sc, interior, adjacent, Je0):
 
     mag = np.max(np.abs(Je0), axis=0)  # (nc, x, y, z)
     cells = []
+    # fdtdx wraps the TFSF plane-source injection term (which contains inv_eps / inv_mu of the source plane) in
+    # jax.lax.stop_gradient on purpose (objects/sources/tfsf.py), so *every* autodiff method omits that dependence and a
+    # finite difference of the forward run cannot agree there. The cross-check is therefore taken outside plane-source boxes.
+    fdtdx = __import__("fdtdx")
+    free = np.ones(interior.shape, dtype=bool)
+    for src in sc.objects.sources:
+        if not isinstance(src, fdtdx.PointDipoleSource):
+            free[tuple(src.grid_slice)] = False
+    interior = interior & free
+    adjacent = adjacent & free
 
     def pick(mask):
         m = np.where(mask[None], mag, -1.0)
